@@ -27,8 +27,9 @@ def ltColour : LoopType := 2
 def ltDof : LoopType := 3
 def ltNull : LoopType := 4
 
-/-- directive kinds: 0 omp parallel, 1 omp do, 2 omp parallel do, 3 acc loop, 4 acc parallel,
-5 acc kernels, ≥6 other -/
+/-- directive kinds (read off the EMITTED directive): 0 omp parallel, 1 omp do, 2 omp parallel do,
+3 acc loop without a `seq` clause (gang/vector/independent/...: parallel), 4 acc parallel, 5 acc kernels,
+6 acc loop carrying the `seq` clause (serial), ≥7 other -/
 abbrev DirKind := Nat
 def dOmpParallel : DirKind := 0
 def dOmpDo : DirKind := 1
@@ -36,9 +37,10 @@ def dOmpParallelDo : DirKind := 2
 def dAccLoop : DirKind := 3
 def dAccParallel : DirKind := 4
 def dAccKernels : DirKind := 5
+def dAccLoopSeq : DirKind := 6
 
 def isOmpDir (k : DirKind) : Bool := k == 0 || k == 1 || k == 2
-def isAccDir (k : DirKind) : Bool := k == 3 || k == 4 || k == 5
+def isAccDir (k : DirKind) : Bool := k == 3 || k == 4 || k == 5 || k == 6
 /-- directives whose child loop is executed in parallel -/
 def isParLoopDir (k : DirKind) : Bool := k == 1 || k == 2 || k == 3
 /-- `Node.is_openmp_parallel`: an `OMPParallelDirective` (or its subclass `OMPParallelDoDirective`) -/
@@ -198,25 +200,73 @@ def RegionTrans.dirKind : RegionTrans → DirKind
   | .accParallel => dAccParallel
   | .accKernels => dAccKernels
 
+/-- the LFRic-specific transformations: own `has_inc_arg` check that no option switches off, and "force" -/
+def LoopTrans.isDynamo : LoopTrans → Bool
+  | .ompParallelDo | .ompDo => true
+  | _ => false
+
+/-- generic OpenMP loop transformations (psyir `OMPLoopTrans`, `OMPParallelLoopTrans`) -/
+def LoopTrans.isGenericOmp : LoopTrans → Bool
+  | .genOmpDo | .genOmpParallelDo => true
+  | _ => false
+
+/-- The entries of the `options` dictionary that influence validation or the kind of directive emitted.
+("force" is excluded by the property; "independent", "reprod", the OpenMP schedule, "default_present" are varied by the
+harness but have no influence and are not part of the model.) -/
+structure LoopOpts where
+  /-- options["sequential"] -/
+  sequential : Bool := false
+  /-- options["gang"], options["vector"] (ACCLoopTrans only) -/
+  gang : Bool := false
+  vector : Bool := false
+  /-- options["collapse"]: 0 = absent/None -/
+  collapse : Nat := 0
+  /-- options["node-type-check"] -/
+  typeCheck : Bool := true
+  deriving Repr, DecidableEq
+
+structure RegionOpts where
+  /-- options["node-type-check"] -/
+  typeCheck : Bool := true
+  /-- not options["disable_loop_check"] (ACCKernelsTrans) -/
+  loopCheck : Bool := true
+  deriving Repr, DecidableEq
+
+/-- Kind of the directive emitted: `ACCLoopDirective.begin_string` writes `seq` alone when `sequential` is set
+(seq wins over gang/vector), the OpenMP directives have no serial form. -/
+def LoopTrans.emitted (t : LoopTrans) (o : LoopOpts) : DirKind :=
+  if t == .accLoop && o.sequential then dAccLoopSeq else t.dirKind
+
+/-- number of perfectly nested loops as counted by `ParallelLoopTrans.validate` for the collapse clause
+(`cnode = cnode.loop_body[0]` while it is a Loop), evaluated on the first node of a forest -/
+def nestDepth : Forest → Nat
+  | loop _ _ b _ => 1 + nestDepth b
+  | _ => 0
+
 section
 variable (T : Tables)
 
-/-- The checks common to the three loop-parallelising transformations and their result.
-`LoopTrans.validate`: target must be a Loop, may not contain excluded node types (halo exchanges for the two
-OpenMP ones), may not be a 'null' loop; `ParallelLoopTrans.validate`: may not be a loop over colours;
-then the LFRic rule: a loop that is not over a single colour and has an INC argument is refused
-(for ACCLoopTrans and the generic OMPLoopTrans / OMPParallelLoopTrans via `LFRicLoop.independent_iterations`, which also
-refuses dof loops with a reduction).  ASSUMPTION (checked by the harness on every case): for such loops the generic
-dependence analysis called first by `independent_iterations` answers False and does not raise - if it raised
-InternalError/KeyError the real code would answer "independent" without consulting `has_inc_arg`. -/
-def parLoopG (t : LoopTrans) (_ : Ctx) : Forest → Option Forest
+/-- The loop-parallelising transformations, validate + apply.
+`LoopTrans.validate`: target must be a Loop, may not contain excluded node types (halo exchanges, unless
+ACCLoopTrans or node-type-check is off), may not be a 'null' loop.  `ParallelLoopTrans.validate`: a loop over colours is
+refused unless options["sequential"]; collapse must be >= 2 and <= the nest depth; then, unless "sequential" (or "force",
+which the two LFRic-specific transformations set themselves), `LFRicLoop.independent_iterations` is asked: it refuses a
+loop that is not over a single colour and has an INC argument, and dof loops with a reduction.  The two LFRic-specific
+transformations have their own `has_inc_arg` check that no option switches off.
+NOTE the generic OpenMP transformations also honour "sequential" (skipping both checks) although the directive they
+emit is always parallel - see the known finding C23-sequential-generic-omp.
+ASSUMPTION (checked by the harness on every case): the generic dependence analysis called first by
+`independent_iterations` answers False and does not raise for a cell loop with an INC/READINC kernel. -/
+def parLoopG (t : LoopTrans) (o : LoopOpts) (_ : Ctx) : Forest → Option Forest
   | loop ty fd b nx =>
     if ty == ltNull then none
-    else if ty == ltColours then none
-    else if t.excludesHalo && hasHalo b then none
-    else if ty != ltColour && hasInc T b then none
-    else if t.usesDA && ty == ltDof && hasReduction T b then none
-    else some (dir t.dirKind (loop ty fd b nil) nx)
+    else if o.typeCheck && t.excludesHalo && hasHalo b then none
+    else if !o.sequential && ty == ltColours then none
+    else if o.collapse == 1 || o.collapse > 1 + nestDepth b then none
+    else if t.isDynamo && ty != ltColour && hasInc T b then none
+    else if t.usesDA && !o.sequential && ty != ltColour && hasInc T b then none
+    else if t.usesDA && !o.sequential && ty == ltDof && hasReduction T b then none
+    else some (dir (t.emitted o) (loop ty fd b nil) nx)
   | _ => none
 
 /-- `Dynamo0p3ColourTrans.apply` -/
@@ -231,32 +281,32 @@ def colourG (c : Ctx) : Forest → Option Forest
 
 /-- `OMPParallelTrans` / `ACCParallelTrans` / `ACCKernelsTrans` applied to the node list `targets` whose first
 element has pre-order index `i0`; the addressed sub-forest starts at that node. -/
-def regionG (t : RegionTrans) (i0 : Nat) (targets : List Nat) (c : Ctx) (f : Forest) : Option Forest :=
+def regionG (t : RegionTrans) (o : RegionOpts) (i0 : Nat) (targets : List Nat) (c : Ctx) (f : Forest) : Option Forest :=
   let n := targets.length
   if t == .ompParallel && c.inOmp then none
   else if sibIdx n i0 f != targets then none         -- same parent, consecutive, in order
   else match splitSibs n f with
     | none => none
     | some (taken, rest) =>
-      if hasHalo taken then none
-      else if t == .ompParallel && hasAccDir taken then none
-      else if t == .accKernels && !hasLoop taken then none
+      if o.typeCheck && hasHalo taken then none
+      else if o.typeCheck && t == .ompParallel && hasAccDir taken then none
+      else if o.loopCheck && t == .accKernels && !hasLoop taken then none
       else some (dir t.dirKind taken rest)
 
 inductive Step where
   | colour (i : Nat)
-  | parLoop (t : LoopTrans) (i : Nat)
-  | region (t : RegionTrans) (targets : List Nat)
+  | parLoop (t : LoopTrans) (o : LoopOpts) (i : Nat)
+  | region (t : RegionTrans) (o : RegionOpts) (targets : List Nat)
   deriving Repr, DecidableEq
 
 /-- one transformation: `none` = refused (state unchanged), `some s'` = accepted -/
 def step (s : Forest) : Step → Option Forest
   | .colour i => atIdx colourG s i Ctx.top
-  | .parLoop t i => atIdx (parLoopG T t) s i Ctx.top
-  | .region t targets =>
+  | .parLoop t o i => atIdx (parLoopG T t o) s i Ctx.top
+  | .region t o targets =>
     match targets with
     | [] => none
-    | i0 :: _ => atIdx (regionG t i0 targets) s i0 Ctx.top
+    | i0 :: _ => atIdx (regionG t o i0 targets) s i0 Ctx.top
 
 /-- a history in which every step is accepted -/
 def run (s : Forest) : List Step → Option Forest
